@@ -562,11 +562,21 @@ func c17GenURLExpr(t *rapid.T) c17URLExpr {
 			}
 		}
 	} else {
-		third = "1"
+		// group index: 1 is the form the rewrite is meant for; the two-argument
+		// form (whole match) and other indexes mean something else to DuckDB and
+		// must come out the same whatever the rewrite does with them
+		third = rapid.SampledFrom([]string{"1", "1", "1", "1", "", "", "0", "2"}).Draw(t, "group")
+		if third != "1" {
+			verifkit.Class("url:extract-group-" + map[string]string{"": "omitted", "0": "0", "2": "2"}[third])
+		}
 	}
 	e := c17URLExpr{Pattern: pat, Replace: replace, Unsure: dbl}
-	e.Text = fn + c17Sp(t) + "(" + c17Sp(t) + "u" + c17Sp(t) + "," + c17Sp(t) + "'" + pat + "'" + c17Sp(t) + "," + c17Sp(t) + third + c17Sp(t) + ")"
-	e.Fires = strings.Contains(strings.ToLower(pat), "https") && (strings.Contains(pat, "[^/]") || strings.Contains(pat, `[^\/]`))
+	e.Text = fn + c17Sp(t) + "(" + c17Sp(t) + "u" + c17Sp(t) + "," + c17Sp(t) + "'" + pat + "'" + c17Sp(t)
+	if third != "" {
+		e.Text += "," + c17Sp(t) + third + c17Sp(t)
+	}
+	e.Text += ")"
+	e.Fires = strings.Contains(strings.ToLower(pat), "https") && (strings.Contains(pat, "[^/]") || strings.Contains(pat, `[^\/]`)) && (replace || third == "1")
 	return e
 }
 
